@@ -29,9 +29,19 @@ RepOf(ln) == [etag_p |-> ln.etag_p, etag_opaque |-> ln.etag_opaque, etag_weak |-
               lm_p |-> ln.lm_p, lm |-> ln.lm, length |-> ln.length, len_known |-> ln.len_known]
 ObsOf(ln) == [status |-> ln.status, exc |-> ln.exc, cr_n |-> ln.cr_n, cr |-> ln.cr, cl_n |-> ln.cl_n, cl |-> ln.cl, body |-> ln.body]
 
+\* op "pre": Response subclasses / responses that carry headers before make_conditional.  What the WSGI server
+\* receives is judged as always; only a Content-Range that the application itself put on a response that is not
+\* answered 206 is the application's, not the library's (ignored).
+ObsPre(ln) == [ObsOf(ln) EXCEPT !.cr_n = IF ln.pre_cr /\ ln.status # 206 THEN 0 ELSE @]
+
 JVerdict(ln) ==
   LET req == ReqOf(ln) rep == RepOf(ln) IN
-  IF ln.op = "rw" THEN VerdictRW(ln)
+  IF ln.op = "pre" THEN
+     (IF ~(ln.api \in {"mc", "sf"}) \/ Len(ln.lm) # 7 THEN "OutOfDomain"
+      ELSE LET v == IF InDomainRC(req, rep) THEN VerdictRC(req, rep, ObsPre(ln))
+                    ELSE IF InDomain(req, rep) THEN Verdict(req, rep, ObsPre(ln)) ELSE "OutOfDomain" IN
+           IF v = "ok" \/ v = "OutOfDomain" THEN v ELSE "Preset/" \o v)
+  ELSE IF ln.op = "rw" THEN VerdictRW(ln)
   ELSE IF ln.op = "rfile" THEN (IF ~FileInDomain(ln) THEN "OutOfDomain" ELSE VerdictFileD(ln, RD(ln)))
   ELSE IF ln.op = "rmc" THEN
      (IF Len(ln.lm) # 7 THEN "OutOfDomain"
@@ -51,7 +61,7 @@ JVerdict(ln) ==
 
 Drift(ln) ==
   LET req == ReqOf(ln) rep == RepOf(ln) IN
-  IF ln.op = "rw" \/ ln.op = "rmc" THEN ""
+  IF ln.op = "rw" \/ ln.op = "rmc" \/ ln.op = "pre" THEN ""
   ELSE IF ln.op = "file" \/ ln.op = "rfile" THEN (IF FileInDomain(ln) THEN FileDrift(ln) ELSE "")
   ELSE IF ln.op = "etag" THEN ""
   ELSE IF ln.op = "rc" THEN
